@@ -231,7 +231,7 @@ theorem loop_rest {s : Src} {F N : Nat} {ab : List (Entry Span)} {ae : List PErr
   exact ⟨l', errs', h', heq.1.symm⟩
 
 /-- **the entry loop produces a `SrcGood` list** -/
-theorem parseLoop_srcGood {s : Src} (hs : AsciiThenBoundary s) (hcr : NoLoneCR s) :
+theorem parseLoop_srcGood {s : Src} (hs : AsciiThenBoundary s) :
     ∀ (N : Nat) (lc : Option (List Span)) (cnt p : Nat) (prev : Bool) (l : List (Entry Span)) (errs : List PErr),
       parseLoop s (exprFuel s) N [] [] lc cnt p = .done (l, errs) → PosOK s p →
       (lc = none → prev = true → MTStop s p) → Cls s l →
@@ -278,7 +278,7 @@ theorem parseLoop_srcGood {s : Src} (hs : AsciiThenBoundary s) (hcr : NoLoneCR s
             exact ⟨by rw [SrcGood.nonjunk rfl]; exact SrcGood.prev_irrel hirr g1, fun hx => by cases hx⟩
         | message m =>
           obtain ⟨hgm, _⟩ := getEntry_ok_message hge
-          have hend := getMessage_end hcr hgm
+          have hend := getMessage_end hgm
           have hq : (skipBlankBlock s q).1 = q := by rw [hend.1.blockStop.sbb]
           obtain ⟨⟨E, hbar⟩, hid1, hid2, hid3, hcm⟩ := getMessage_bar hgm hls
           cases lc with
@@ -314,7 +314,7 @@ theorem parseLoop_srcGood {s : Src} (hs : AsciiThenBoundary s) (hcr : NoLoneCR s
                 fun hx => by cases hx⟩
         | term t' =>
           obtain ⟨hgt, h45⟩ := getEntry_ok_term hge
-          have hend := getTerm_end hcr hgt
+          have hend := getTerm_end hgt
           have hq : (skipBlankBlock s q).1 = q := by rw [hend.1.blockStop.sbb]
           obtain ⟨⟨E, hbar⟩, _, hcm⟩ := getTerm_bar hgt hls
           cases lc with
@@ -405,13 +405,13 @@ theorem parseLoop_srcGood {s : Src} (hs : AsciiThenBoundary s) (hcr : NoLoneCR s
       | none => exact ⟨trivial, fun _ => by simp only [Parser.flushC, Cont]; omega⟩
       | some c0 => exact ⟨by simp only [Parser.flushC]; rw [SrcGood.nonjunk rfl]; trivial, fun hx => by cases hx⟩
 
-/-- **the tree returned by `parse` is `SrcGood`** (source without lone `\r`) -/
-theorem parse_srcGood {s : Src} (hs : AsciiThenBoundary s) (hcr : NoLoneCR s) {t : Resource Span} {errs : List PErr}
+/-- **the tree returned by `parse` is `SrcGood`** (every source) -/
+theorem parse_srcGood {s : Src} (hs : AsciiThenBoundary s) {t : Resource Span} {errs : List PErr}
     (h : parse s = .done (t, errs)) : Cls s t ∧ SrcGood s false t := by
   have hcls : Cls s t := fun e he =>
-    rtEntry_normSafe_of_parse s hcr (fun n p els q h => getPattern_mlPattern_join hcr n p els q h) t errs h e he
+    rtEntry_normSafe_of_parse_all s t errs h e he
   unfold parse at h
-  exact ⟨hcls, (parseLoop_srcGood hs hcr _ none 0 _ false t errs h (posOK_after (Or.inl (LS_zero s)))
+  exact ⟨hcls, (parseLoop_srcGood hs _ none 0 _ false t errs h (posOK_after (Or.inl (LS_zero s)))
     (fun _ hx => by cases hx) hcls).1⟩
 
 end FluentProofs.Ser
